@@ -13,7 +13,10 @@ gvars == <<beh>>
 
 Base   == <<Simple("origin"), PathA("aspath", <<2>>), Simple("nexthop")>>
 One(a) == Update(<<>>, Base \o <<a>>, <<NL(24, 0)>>)
-Beh(s, o) == [shape |-> s, opts |-> o]
+Beh(s, o) == [shape |-> s, opts |-> o, raw |-> <<>>]
+(* "received octets": the writer model's image of the shape is handed to the real parser instead of
+   building the message with the library's constructors *)
+RawBeh(s, o) == [shape |-> s, opts |-> o, raw |-> Encode(s, o)]
 
 Thorough == Tier = "thorough"
 
@@ -136,8 +139,33 @@ ExAp == IF Thorough THEN {<<p, q>> : p \in BOOLEAN, q \in BOOLEAN} ELSE {<<FALSE
 SweepEx == {Beh(Example(n), Opt(FALSE, a, ap[1], ap[2])) : n \in ExampleNames, a \in BOOLEAN, ap \in ExAp}
            \ {Beh(Example(n), Opt(FALSE, TRUE, ap[1], ap[2])) : n \in FourOctetOnly, ap \in ExAp}
 
+(* ---- sweep "ext": the Extended Length bit as a dimension of its own (value of 0..255 octets in the
+   two-octet length form), first / middle / last in the UPDATE, constructed and received ---- *)
+ExtVariants(as2) ==
+  {Simple("med"), Simple("atomic"), Simple("aigp"), Counted("communities", 2), Counted("extcomm", 1),
+   Counted("unknown", 0), Counted("unknown", 1), Counted("unknown", 255),
+   MpA("mpunreach", "ipv4-multicast", <<NL(24, 0), NL(9, 0)>>), MpA("mpunreach", "ipv6-unicast", <<>>),
+   MpN("ipv6-unicast", <<NL(64, 0), NL(0, 0)>>, 0), MpN("ipv4-unicast", <<NL(24, 0)>>, 1),
+   MpN("ipv6-multicast", <<NL(128, 0)>>, 0)}
+Placed(a) ==
+  {Update(<<>>, <<ExtForm(a)>> \o Base, <<NL(24, 0)>>),
+   Update(<<>>, <<Simple("origin"), ExtForm(a), PathA("aspath", <<2>>), Simple("nexthop")>>, <<NL(24, 0)>>),
+   Update(<<>>, Base \o <<ExtForm(a)>>, <<NL(24, 0)>>),
+   Update(<<NL(8, 0)>>, Base \o <<ExtForm(a)>>, <<>>)}
+BaseExt == {Update(<<>>, <<ExtForm(Simple("origin")), PathA("aspath", <<2>>), Simple("nexthop")>>, <<NL(24, 0)>>),
+            Update(<<>>, <<Simple("origin"), ExtForm(PathA("aspath", <<2, 1>>)), Simple("nexthop")>>, <<NL(24, 0)>>),
+            Update(<<>>, <<Simple("origin"), PathA("aspath", <<>>), ExtForm(Simple("nexthop"))>>, <<NL(24, 0)>>),
+            Update(<<>>, <<ExtForm(Simple("origin")), ExtForm(PathA("aspath", <<2>>)), ExtForm(Simple("nexthop")),
+                           ExtForm(Simple("localpref"))>>, <<NL(24, 0)>>)}
+ExtShapes(as2) == UNION {Placed(a) : a \in ExtVariants(as2)} \cup BaseExt
+SweepExt ==
+  UNION {{Beh(s, Opt(FALSE, as2, p, p)) : s \in ExtShapes(as2), p \in BOOLEAN} : as2 \in BOOLEAN}
+  \cup UNION {{RawBeh(s, Opt(FALSE, as2, p, p)) : s \in ExtShapes(as2), p \in BOOLEAN} : as2 \in BOOLEAN}
+  \cup {RawBeh(One(a), Opt(FALSE, FALSE, FALSE, FALSE)) : a \in AttrVariants(FALSE) \ {Counted("unknown", 4000)}}
+
 Behaviours ==
   CASE Sweep = "attr" -> SweepAttr
+    [] Sweep = "ext"  -> SweepExt
     [] Sweep = "nlri" -> SweepNlri
     [] Sweep = "cap"  -> SweepCap
     [] Sweep = "open" -> SweepOpen
